@@ -514,6 +514,80 @@ theorem distance_meridian_partial {el : Ell} (h : Valid el) (lon : ℝ) {lat1 la
   · exact lo
   · exact hi
 
+/-- Along a meridian Andoyer's formula is EXACTLY the first-order (in `f`) meridian arc: for two distinct points of one
+    meridian less than 180° apart, `dist = a [ (1 − f/2) |Δφ| − (3f/2) sin|Δφ| cos(φ₁+φ₂) ]`, which is
+    `∫ a (1 − f/2 − (3f/2) cos 2φ) dφ` between the two latitudes — the integrand being the expansion to first order in `f`
+    of the meridian radius of curvature `a(1−e²)/(1−e² sin²φ)^(3/2) = a (1 − 2f + 3f sin²φ) + O(f²)`.  So the 1e-4
+    clause is an `O(f²)` statement (error `≈ f²` relative; it is evaluated on the implementation). -/
+theorem distance_meridian_first_order {el : Ell} (lon : ℝ) {lat1 lat2 : ℝ} (hne : lat1 ≠ lat2) (hlt : |lat1 - lat2| < 180) :
+    ∃ d err, distance el lon lat1 lon lat2 = .ok (d, err) ∧
+      d = el.a * ((1 - el.f / 2) * |pradians lat1 - pradians lat2|
+            - 3 * el.f / 2 * Real.sin |pradians lat1 - pradians lat2| * Real.cos (pradians lat1 + pradians lat2)) := by
+  have hpi := Real.pi_pos
+  obtain ⟨G, hG⟩ : ∃ G, G = (pradians lat1 - pradians lat2) / 2 := ⟨_, rfl⟩
+  obtain ⟨F, hF⟩ : ∃ F, F = (pradians lat1 + pradians lat2) / 2 := ⟨_, rfl⟩
+  have hGe : G = (lat1 - lat2) * (π / 360) := by rw [hG]; unfold pradians; ring
+  have hGabs : |G| < π / 2 := by
+    rw [hGe, abs_mul, abs_of_pos (by positivity : (0:ℝ) < π / 360)]
+    calc |lat1 - lat2| * (π / 360) < 180 * (π / 360) := mul_lt_mul_of_pos_right hlt (by positivity)
+      _ = π / 2 := by ring
+  have hG0 : G ≠ 0 := by rw [hGe]; exact mul_ne_zero (sub_ne_zero.mpr hne) (by positivity)
+  have hGpos : 0 < |G| := abs_pos.mpr hG0
+  have hcos : 0 < Real.cos G := Real.cos_pos_of_mem_Ioo ⟨(abs_lt.mp hGabs).1, (abs_lt.mp hGabs).2⟩
+  have hsin : Real.sin G ≠ 0 := by
+    intro hs
+    exact hG0 ((Real.sin_eq_zero_iff_of_lt_of_lt (by linarith [(abs_lt.mp hGabs).1]) (by linarith [(abs_lt.mp hGabs).2])).mp hs)
+  have hL : (pradians lon - pradians lon) / 2 = 0 := by ring
+  obtain ⟨_, _, hform⟩ := distance_is_andoyer el lon lat1 lon lat2
+  simp only [hL, Real.sin_zero, Real.cos_zero, ← hG, ← hF] at hform
+  have hs2 : 0 < Real.sin G ^ 2 := by positivity
+  have hc2 : 0 < Real.cos G ^ 2 := by positivity
+  have es : Real.sin G ^ 2 * 1 ^ 2 + Real.cos F ^ 2 * 0 ^ 2 = Real.sin G ^ 2 := by ring
+  have ec : Real.cos G ^ 2 * 1 ^ 2 + Real.sin F ^ 2 * 0 ^ 2 = Real.cos G ^ 2 := by ring
+  rw [es, ec] at hform
+  refine ⟨_, _, hform hs2 hc2, ?_⟩
+  -- ω = |G|
+  have hom : Real.arctan (Real.sqrt (Real.sin G ^ 2 / Real.cos G ^ 2)) = |G| := by
+    have : Real.sin G ^ 2 / Real.cos G ^ 2 = Real.tan G ^ 2 := by rw [Real.tan_eq_sin_div_cos, div_pow]
+    rw [this, Real.sqrt_sq_eq_abs]
+    rcases abs_choice G with hl | hl
+    · have hl0 : 0 ≤ G := abs_eq_self.mp hl
+      rw [abs_of_nonneg (Real.tan_nonneg_of_nonneg_of_le_pi_div_two hl0 (by linarith [(abs_lt.mp hGabs).2])), hl]
+      exact Real.arctan_tan (by linarith) (abs_lt.mp hGabs).2
+    · have hl0 : G ≤ 0 := abs_eq_neg_self.mp hl
+      rw [abs_of_nonpos (Real.tan_nonpos_of_nonpos_of_neg_pi_div_two_le hl0 (by linarith [(abs_lt.mp hGabs).1])), hl,
+        ← Real.tan_neg]
+      exact Real.arctan_tan (by linarith [(abs_lt.mp hGabs).2]) (by linarith [(abs_lt.mp hGabs).1])
+  -- sqrt(s c) = |sin G| cos G, and 2 |sin G| cos G = sin |2G|
+  have hsc : Real.sqrt (Real.sin G ^ 2 * Real.cos G ^ 2) = |Real.sin G| * Real.cos G := by
+    rw [← mul_pow, Real.sqrt_sq_eq_abs, abs_mul, abs_of_pos hcos]
+  have hsin2 : Real.sin |pradians lat1 - pradians lat2| = 2 * (|Real.sin G| * Real.cos G) := by
+    have h2 : pradians lat1 - pradians lat2 = 2 * G := by rw [hG]; ring
+    rw [h2, abs_mul, abs_of_pos (by norm_num : (0:ℝ) < 2), Real.sin_two_mul]
+    rcases abs_choice G with hl | hl
+    · have hl0 : 0 ≤ G := abs_eq_self.mp hl
+      rw [hl, abs_of_nonneg (Real.sin_nonneg_of_nonneg_of_le_pi hl0 (by linarith [(abs_lt.mp hGabs).2]))]; ring
+    · have hl0 : G ≤ 0 := abs_eq_neg_self.mp hl
+      rw [hl, Real.sin_neg, Real.cos_neg, abs_of_nonpos (Real.sin_nonpos_of_nonpos_of_neg_pi_le hl0 (by linarith [(abs_lt.mp hGabs).1]))]
+      ring
+  have hcos2 : Real.cos (pradians lat1 + pradians lat2) = Real.cos F ^ 2 - Real.sin F ^ 2 := by
+    have h2 : pradians lat1 + pradians lat2 = 2 * F := by rw [hF]; ring
+    rw [h2, Real.cos_two_mul']
+  have habsd : |pradians lat1 - pradians lat2| = 2 * |G| := by
+    have h2 : pradians lat1 - pradians lat2 = 2 * G := by rw [hG]; ring
+    rw [h2, abs_mul, abs_of_pos (by norm_num : (0:ℝ) < 2)]
+  rw [hom, hsc, hsin2, hcos2, habsd]
+  have hFF := Real.sin_sq_add_cos_sq F
+  obtain ⟨S, hS⟩ : ∃ S, S = |Real.sin G| * Real.cos G := ⟨_, rfl⟩
+  rw [← hS]
+  have hg : |G| ≠ 0 := hGpos.ne'
+  have hs2' : Real.sin G ^ 2 ≠ 0 := hs2.ne'
+  have hc2' : Real.cos G ^ 2 ≠ 0 := hc2.ne'
+  field_simp
+  have hc : Real.cos F ^ 2 = 1 - Real.sin F ^ 2 := by linarith
+  rw [hc]
+  ring
+
 example : ∃ d err, distance WGS84 33 0 33 10 = .ok (d, err) ∧
     (1 - 5 / 2 * WGS84.f) * (WGS84.a * |pradians 0 - pradians 10|) ≤ d ∧
     d ≤ (1 + WGS84.f) * (WGS84.a * |pradians 0 - pradians 10|) :=
